@@ -160,8 +160,11 @@ def build_lens(rnd, which):
         meta = {"lens": "random %s" % m["kinds"], "iterative": "even_asphere" in m["kinds"]}
     if rnd.random() < 0.5:      # vignetting factors on a new outer field
         mf = o.fields.max_y_field
-        o.add_field(y=mf * 1.0 if mf else 1.0, vx=rnd.uniform(0.05, 0.3), vy=rnd.uniform(0.05, 0.3))
+        # half of them inside the existing fields: the field list is then not in ascending order
+        fy = rnd.choice([1.0, 1.0, 0.5, 0.85])
+        o.add_field(y=mf * fy if mf else fy, vx=rnd.uniform(0.05, 0.3), vy=rnd.uniform(0.05, 0.3))
         meta["vignetting"] = True
+        meta["fields_unsorted"] = fy < 1.0
     pol = rnd.random()
     if pol < 0.2:
         o.set_polarization(PolarizationState(is_polarized=True, Ex=1.0, Ey=rnd.random(), phase_x=0.0, phase_y=rnd.uniform(0, 3)))
